@@ -39,3 +39,700 @@ Section Doc.
     rewrite rev_app_distr. cbn [rev app]. rewrite rev_involutive. reflexivity.
   Qed.
 End Doc.
+
+(* ---------- scanning from a start index > 0 (as _split_quoted does) ---------- *)
+Fixpoint par_after (l : str) (par : bool) : bool :=
+  match l with [] => par | c :: r => par_after r (if c =? BS then negb par else false) end.
+
+Lemma nuq_skip chs a : forall b i par inq,
+  nuq chs (a ++ b) i (i + zlen a)%Z par inq =
+  match nuq0 chs b (par_after a par) inq with None => (-1)%Z | Some k => (i + zlen a + Z.of_nat k)%Z end.
+Proof.
+  induction a as [|c r IH]; intros b i par inq.
+  - cbn [app par_after zlen length]. rewrite nuq_rel by (cbn; lia). destruct (nuq0 chs b par inq); cbn; lia.
+  - cbn [app nuq par_after]. unfold zlen in *. cbn [length]. rewrite Nat2Z.inj_succ.
+    destruct (Z.ltb_spec i (i + Z.succ (Z.of_nat (length r)))); [|lia].
+    replace (i + Z.succ (Z.of_nat (length r)))%Z with ((i + 1) + Z.of_nat (length r))%Z by lia.
+    rewrite IH. destruct (nuq0 chs b _ inq); lia.
+Qed.
+
+Lemma par_after_last a c par : c <> BS -> par_after (a ++ [c]) par = false.
+Proof.
+  revert par. induction a as [|x r IH]; intros par Hc; cbn [app par_after].
+  - destruct (N.eqb_spec c BS); [contradiction|reflexivity].
+  - apply IH. exact Hc.
+Qed.
+
+(* next_unquoted_char text chs x, where text = a ++ b, x = len a and a ends with a non-backslash *)
+Lemma nuc_from a c b chs : c <> BS ->
+  next_unquoted_char ((a ++ [c]) ++ b) chs (zlen (a ++ [c])) =
+  match nuq0 chs b false false with None => (-1)%Z | Some k => (zlen (a ++ [c]) + Z.of_nat k)%Z end.
+Proof.
+  intro Hc. unfold next_unquoted_char.
+  replace (zlen (a ++ [c])) with (0 + zlen (a ++ [c]))%Z at 1 by lia.
+  rewrite nuq_skip, par_after_last by exact Hc. destruct (nuq0 chs b false false); lia.
+Qed.
+
+(* a token holds no unquoted ASCII whitespace: a legacy name, or a quoted escaped string *)
+Lemma ws_not_name c : name_rest c = true -> mem_char c WS_ASCII = false.
+Proof.
+  intro H. unfold name_rest, name_start, is_alpha, is_digit, USCORE, COLON in H. unfold WS_ASCII. cbn [mem_char].
+  repeat match goal with |- context [c =? ?k] => destruct (N.eqb_spec c k); [subst c; vm_compute in H; discriminate|] end.
+  reflexivity.
+Qed.
+
+Definition mname_tok (n : str) : str := escape_metric_name n.
+
+Lemma mname_tok_facts n : n <> [] ->
+  (forall rest, nuq0 WS_ASCII (mname_tok n ++ rest) false false
+     = option_map (fun k => (length (mname_tok n) + k)%nat) (nuq0 WS_ASCII rest false false))
+  /\ unquote_unescape_with true (mname_tok n) = Ok (n, negb (is_valid_legacy_metric_name n))
+  /\ (exists p d, mname_tok n = p ++ [d] /\ d <> BS /\ is_space_uni d = false)
+  /\ mname_tok n <> [].
+Proof.
+  intro Hne. unfold mname_tok, escape_metric_name. destruct (is_valid_legacy_metric_name n) eqn:E.
+  - destruct (legacy_name_chars n E) as (c & r & -> & Hall).
+    assert (Hplain : forall x, In x (c :: r) -> name_rest x = true) by (apply Forall_forall; exact Hall).
+    repeat split.
+    + intro rest. apply plain_scan. intros x Hx. specialize (Hplain x Hx).
+      destruct (name_rest_plain x Hplain) as (H1 & H2 & _). repeat split; auto. apply ws_not_name. exact Hplain.
+    + unfold unquote_unescape_with. rewrite (strip_legacy_name (c :: r) E).
+      destruct (N.eqb_spec c DQ) as [->|_].
+      * exfalso. destruct (name_rest_plain DQ (Hplain DQ (or_introl eq_refl))) as (_ & H2 & _). congruence.
+      * cbn [negb]. rewrite replace_escaping_plain; [reflexivity|].
+        intro Hin. destruct (name_rest_plain BS (Hplain BS Hin)) as (H1 & _). congruence.
+    + destruct (@exists_last _ (c :: r) ltac:(discriminate)) as (p & d & Ep). exists p, d. split; [exact Ep|].
+      assert (Hd : name_rest d = true) by (apply Hplain; rewrite Ep; apply in_or_app; right; left; reflexivity).
+      destruct (name_rest_plain d Hd) as (H1 & _ & _ & _ & _ & _ & H7). auto.
+    + discriminate.
+  - rewrite escape_chain_eq. repeat split.
+    + intro rest. apply quoted_scan. reflexivity.
+    + apply unq_quoted.
+    + exists (DQ :: escape n), DQ. split; [reflexivity|]. split; [discriminate|reflexivity].
+    + discriminate.
+Qed.
+
+(* ---------- _split_quoted on a comment line ---------- *)
+Definition skipws (tok : str) : Prop :=
+  forall r, nuq0 WS_ASCII (tok ++ r) false false
+            = option_map (fun k => (length tok + k)%nat) (nuq0 WS_ASCII r false false).
+
+Definition okpre (pre : str) : Prop := pre = [] \/ exists a c, pre = a ++ [c] /\ c <> BS.
+
+Lemma nuc_at pre b : okpre pre ->
+  next_unquoted_char (pre ++ b) WS_ASCII (zlen pre) =
+  match nuq0 WS_ASCII b false false with None => (-1)%Z | Some k => (zlen pre + Z.of_nat k)%Z end.
+Proof.
+  intros [->|(a & c & -> & Hc)].
+  - cbn [app]. rewrite next_unquoted_char_rel. unfold zlen. cbn [length]. destruct (nuq0 _ _ _ _); lia.
+  - apply nuc_from. exact Hc.
+Qed.
+
+Lemma slice_mid pre tok post :
+  slice (pre ++ tok ++ post) (zlen pre) (zlen pre + Z.of_nat (length tok)) = tok.
+Proof.
+  unfold zlen. rewrite <- Nat2Z.inj_add. rewrite slice_nat by (rewrite !app_length; lia).
+  rewrite skipn_app, skipn_all, Nat.sub_diag. cbn [skipn app].
+  replace (length pre + length tok - length pre)%nat with (length tok) by lia.
+  rewrite firstn_app, firstn_all, Nat.sub_diag. cbn [firstn]. apply app_nil_r.
+Qed.
+
+(* one round of the loop: a token followed by a space *)
+Lemma sq_round fuel pre tok post done last :
+  okpre pre -> skipws tok -> (length done < 3)%nat ->
+  split_quoted_fuel (S fuel) (pre ++ tok ++ SP :: post) WS_ASCII 3 (zlen pre) done last
+  = split_quoted_fuel fuel (pre ++ tok ++ SP :: post) WS_ASCII 3 (zlen (pre ++ tok ++ [SP])) (tok :: done) [].
+Proof.
+  intros Hp Hs Hd. cbn [split_quoted_fuel].
+  assert (Hlt : (zlen pre <? zlen (pre ++ tok ++ SP :: post))%Z = true).
+  { unfold zlen. rewrite !app_length. cbn [length]. lia. }
+  rewrite Hlt. rewrite (nuc_at pre (tok ++ SP :: post) Hp), Hs.
+  cbn [nuq0]. change (SP =? BS) with false. change (SP =? DQ) with false. cbn [andb negb].
+  change (mem_char SP WS_ASCII) with true. cbn [andb option_map]. rewrite Nat.add_0_r.
+  replace (zlen pre + Z.of_nat (length tok) =? -1)%Z with false by (unfold zlen; lia).
+  replace ((0 <? 3)%Z && (3 <? Z.of_nat (S (length done)))%Z) with false by lia.
+  rewrite slice_mid. f_equal. unfold zlen. rewrite !app_length. cbn [length]. lia.
+Qed.
+
+(* the last token: nothing after it *)
+Lemma sq_last fuel pre tok done last :
+  okpre pre -> skipws tok -> tok <> [] ->
+  split_quoted_fuel (S fuel) (pre ++ tok) WS_ASCII 3 (zlen pre) done last = Ok (rev (tok :: done)).
+Proof.
+  intros Hp Hs Hne. cbn [split_quoted_fuel].
+  assert (Hlt : (zlen pre <? zlen (pre ++ tok))%Z = true).
+  { unfold zlen. rewrite app_length. destruct tok; [congruence|cbn [length]; lia]. }
+  rewrite Hlt. rewrite (nuc_at pre tok Hp). rewrite <- (app_nil_r tok) at 1. rewrite Hs. cbn [nuq0 option_map].
+  rewrite Z.eqb_refl. unfold zlen. rewrite slice_from_skipn by (rewrite app_length; lia).
+  rewrite skipn_app, skipn_all, Nat.sub_diag. reflexivity.
+Qed.
+
+(* the fourth part: the rest of the line, whatever it is (maxsplit reached or no more separators) *)
+Lemma sq_rest fuel pre rest (done : list str) last :
+  okpre pre -> rest <> [] -> length done = 3%nat ->
+  split_quoted_fuel (S fuel) (pre ++ rest) WS_ASCII 3 (zlen pre) done last = Ok (rev (rest :: done)).
+Proof.
+  intros Hp Hne Hd. cbn [split_quoted_fuel].
+  assert (Hlt : (zlen pre <? zlen (pre ++ rest))%Z = true).
+  { unfold zlen. rewrite app_length. destruct rest; [congruence|cbn [length]; lia]. }
+  rewrite Hlt.
+  assert (Hsl : slice_from (pre ++ rest) (zlen pre) = rest).
+  { unfold zlen. rewrite slice_from_skipn by (rewrite app_length; lia). rewrite skipn_app, skipn_all, Nat.sub_diag. reflexivity. }
+  rewrite Hsl. destruct (_ =? -1)%Z; [reflexivity|].
+  replace ((0 <? 3)%Z && (3 <? Z.of_nat (S (length done)))%Z) with true by lia. reflexivity.
+Qed.
+
+Lemma skipws_plain tok : Forall (fun c => c <> BS /\ c <> DQ /\ mem_char c WS_ASCII = false) tok -> skipws tok.
+Proof. intros H r. apply plain_scan. intros c Hc. rewrite Forall_forall in H. apply H. exact Hc. Qed.
+
+Definition T_hash : str := [HASH].
+Lemma skipws_hash : skipws T_hash.
+Proof. apply skipws_plain. repeat constructor; discriminate. Qed.
+Lemma skipws_HELP : skipws S_HELP.
+Proof. apply skipws_plain. vm_compute. repeat constructor; discriminate. Qed.
+Lemma skipws_TYPE : skipws S_TYPE.
+Proof. apply skipws_plain. vm_compute. repeat constructor; discriminate. Qed.
+
+Lemma okpre_snoc a c : c <> BS -> okpre (a ++ [c]).
+Proof. intro H. right. exists a, c. auto. Qed.
+
+(* `# KW tok`  and  `# KW tok rest` *)
+Lemma split_comment3 kw tok : skipws kw -> skipws tok -> tok <> [] ->
+  split_quoted (T_hash ++ SP :: kw ++ SP :: tok) WS_ASCII 3 = Ok [T_hash; kw; tok].
+Proof.
+  intros Hk Ht Hne. unfold split_quoted.
+  set (text := T_hash ++ SP :: kw ++ SP :: tok).
+  destruct (length text) as [|[|[|n]]] eqn:El;
+    try (subst text; rewrite !app_length in El; cbn [length T_hash] in El; rewrite app_length in El; cbn [length] in El;
+         destruct tok; [congruence|cbn [length] in El; lia]).
+  change (split_quoted_fuel (S (S (S (S (S n))))) text WS_ASCII 3 0 [] [])
+    with (split_quoted_fuel (S (S (S (S (S n))))) ([] ++ T_hash ++ SP :: kw ++ SP :: tok) WS_ASCII 3 (zlen []) [] []).
+  rewrite sq_round; [|left; reflexivity|exact skipws_hash|cbn; lia].
+  cbn [app].
+  change (T_hash ++ SP :: kw ++ SP :: tok) with ((T_hash ++ [SP]) ++ kw ++ SP :: tok).
+  rewrite sq_round; [|apply okpre_snoc; discriminate|exact Hk|cbn; lia].
+  replace ((T_hash ++ [SP]) ++ kw ++ SP :: tok) with (((T_hash ++ [SP]) ++ kw ++ [SP]) ++ tok)
+    by (rewrite <- !app_assoc; reflexivity).
+  rewrite sq_last; [reflexivity|rewrite app_assoc; apply okpre_snoc; discriminate|exact Ht|exact Hne].
+Qed.
+
+Lemma split_comment4 kw tok rest : skipws kw -> skipws tok -> rest <> [] ->
+  split_quoted (T_hash ++ SP :: kw ++ SP :: tok ++ SP :: rest) WS_ASCII 3 = Ok [T_hash; kw; tok; rest].
+Proof.
+  intros Hk Ht Hne. unfold split_quoted.
+  set (text := T_hash ++ SP :: kw ++ SP :: tok ++ SP :: rest).
+  destruct (length text) as [|[|[|[|n]]]] eqn:El;
+    try (subst text; rewrite !app_length in El; cbn [length T_hash] in El; rewrite !app_length in El; cbn [length] in El;
+         rewrite app_length in El; cbn [length] in El; destruct rest; [congruence|cbn [length] in El; lia]).
+  change (split_quoted_fuel (S (S (S (S (S (S n)))))) text WS_ASCII 3 0 [] [])
+    with (split_quoted_fuel (S (S (S (S (S (S n)))))) ([] ++ T_hash ++ SP :: kw ++ SP :: tok ++ SP :: rest) WS_ASCII 3 (zlen []) [] []).
+  rewrite sq_round; [|left; reflexivity|exact skipws_hash|cbn; lia].
+  cbn [app].
+  change (T_hash ++ SP :: kw ++ SP :: tok ++ SP :: rest) with ((T_hash ++ [SP]) ++ kw ++ SP :: tok ++ SP :: rest).
+  rewrite sq_round; [|apply okpre_snoc; discriminate|exact Hk|cbn; lia].
+  replace ((T_hash ++ [SP]) ++ kw ++ SP :: tok ++ SP :: rest)
+    with (((T_hash ++ [SP]) ++ kw ++ [SP]) ++ tok ++ SP :: rest) by (rewrite <- !app_assoc; reflexivity).
+  rewrite sq_round; [|rewrite app_assoc; apply okpre_snoc; discriminate|exact Ht|cbn; lia].
+  replace (((T_hash ++ [SP]) ++ kw ++ [SP]) ++ tok ++ SP :: rest)
+    with ((((T_hash ++ [SP]) ++ kw ++ [SP]) ++ tok ++ [SP]) ++ rest) by (rewrite <- !app_assoc; reflexivity).
+  rewrite sq_rest; [reflexivity| |exact Hne|reflexivity].
+  rewrite !app_assoc. apply okpre_snoc. discriminate.
+Qed.
+
+Ltac app_norm := unfold T_hash; repeat (cbn [app]; rewrite <- ?app_assoc); reflexivity.
+
+(* ---------- strip on a line ---------- *)
+Lemma lstrip_p_app_nil p a b : lstrip_p p a = [] -> lstrip_p p (a ++ b) = lstrip_p p b.
+Proof.
+  induction a as [|c r IH]; intro H; [reflexivity|]. cbn [app lstrip_p] in *.
+  destruct (p c); [apply IH; exact H|discriminate].
+Qed.
+Lemma lstrip_p_app_cons p a b x y : lstrip_p p a = x :: y -> lstrip_p p (a ++ b) = (x :: y) ++ b.
+Proof.
+  induction a as [|c r IH]; intro H; [discriminate|]. cbn [app lstrip_p] in *.
+  destruct (p c); [apply IH; exact H|]. inversion H; subst. reflexivity.
+Qed.
+
+Lemma rstrip_p_app p a b :
+  rstrip_p p (a ++ b) = match rstrip_p p b with [] => rstrip_p p a | _ => a ++ rstrip_p p b end.
+Proof.
+  unfold rstrip_p. rewrite rev_app_distr.
+  destruct (lstrip_p p (rev b)) as [|x y] eqn:E.
+  - rewrite (lstrip_p_app_nil p (rev b) (rev a) E). reflexivity.
+  - rewrite (lstrip_p_app_cons p (rev b) (rev a) x y E).
+    destruct (rev (x :: y)) eqn:E2; [apply (f_equal (@length char)) in E2; rewrite rev_length in E2; discriminate|].
+    rewrite <- E2, rev_app_distr, rev_involutive. reflexivity.
+Qed.
+
+Lemma rstrip_p_ends p a d : p d = false -> rstrip_p p (a ++ [d]) = a ++ [d].
+Proof. intro H. unfold rstrip_p. rewrite rev_app_distr. cbn [rev app lstrip_p]. rewrite H. cbn [rev]. rewrite rev_involutive. reflexivity. Qed.
+
+(* a comment line `# KW tok SP text`: strip removes trailing whitespace of text only *)
+Lemma strip_comment_line kw tok text :
+  (exists p d, tok = p ++ [d] /\ is_space_uni d = false) ->
+  strip (T_hash ++ SP :: kw ++ SP :: tok ++ SP :: text)
+  = match rstrip text with
+    | [] => T_hash ++ SP :: kw ++ SP :: tok
+    | t => T_hash ++ SP :: kw ++ SP :: tok ++ SP :: t
+    end.
+Proof.
+  intros (p & d & -> & Hd). unfold strip, strip_p, rstrip.
+  assert (Hl : lstrip_p is_space_uni (T_hash ++ SP :: kw ++ SP :: (p ++ [d]) ++ SP :: text)
+               = T_hash ++ SP :: kw ++ SP :: (p ++ [d]) ++ SP :: text) by reflexivity.
+  rewrite Hl.
+  replace (T_hash ++ SP :: kw ++ SP :: (p ++ [d]) ++ SP :: text)
+    with ((T_hash ++ SP :: kw ++ SP :: p ++ [d]) ++ SP :: text)
+    by app_norm.
+  rewrite rstrip_p_app.
+  change (SP :: text) with ([SP] ++ text). rewrite (rstrip_p_app is_space_uni [SP] text).
+  destruct (rstrip_p is_space_uni text) as [|t0 tr] eqn:Et.
+  - change (rstrip_p is_space_uni [SP]) with (@nil char).
+    replace (T_hash ++ SP :: kw ++ SP :: p ++ [d]) with ((T_hash ++ SP :: kw ++ SP :: p) ++ [d])
+      by app_norm.
+    rewrite rstrip_p_ends by exact Hd. app_norm.
+  - app_norm.
+Qed.
+
+(* ---------- the HELP and TYPE lines ---------- *)
+Definition KW_HELP : str := TextParser.S_HELP.
+Definition KW_TYPE : str := TextParser.S_TYPE.
+Definition help_line (n doc : str) : str := T_hash ++ SP :: KW_HELP ++ SP :: mname_tok n ++ SP :: help_escape_chain doc.
+Definition type_line (n typ : str) : str := T_hash ++ SP :: KW_TYPE ++ SP :: mname_tok n ++ SP :: typ.
+
+Lemma text_meta_lines_eq n doc typ :
+  text_meta n doc typ = help_line n doc ++ [LF] ++ type_line n typ ++ [LF].
+Proof. unfold text_meta, help_line, type_line, mname_tok. app_norm. Qed.
+
+(* what the parser stores as help text: the written help with trailing whitespace removed (LF was escaped, so it stays) *)
+Definition parsed_doc (doc : str) : str := replace_help_escaping (rstrip (help_escape_chain doc)).
+
+Section Lines.
+  Variable NUM : Type.
+  Variable parse_num parse_float : str -> option NUM.
+  Variable div1000 : NUM -> res NUM.
+  Notation step := (step_line false true NUM parse_num parse_float div1000 true).
+  Notation flush_ := (flush false NUM).
+
+  Lemma cand_of_tok n : n <> [] ->
+    (do '(n0, q) <- unquote_unescape true (mname_tok n);
+     if negb q && negb (is_valid_legacy_metric_name n0) then Err ValueError else Ok (n0, q))
+    = Ok (n, negb (is_valid_legacy_metric_name n)).
+  Proof.
+    intro Hne. destruct (mname_tok_facts n Hne) as (_ & Hu & _). unfold unquote_unescape. rewrite Hu. cbn [bind].
+    rewrite negb_involutive. destruct (is_valid_legacy_metric_name n); reflexivity.
+  Qed.
+
+  Lemma step_help_line st n doc out :
+    n <> [] -> str_eqb n (st_name NUM st) = false -> flush_ st = Ok out ->
+    step st (help_line n doc)
+    = Ok ({| st_name := n; st_doc := parsed_doc doc; st_typ := TextParser.S_untyped; st_samples := [];
+             st_allowed := [n] |}, out).
+  Proof.
+    intros Hne Hneq Hfl. unfold step_line, help_line.
+    destruct (mname_tok_facts n Hne) as (Hskip & Hu & (p & d & Ep & Hd1 & Hd2) & Htne).
+    rewrite strip_comment_line by (exists p, d; auto).
+    unfold parsed_doc. fold (rstrip (help_escape_chain doc)).
+    destruct (rstrip (help_escape_chain doc)) as [|t0 tr] eqn:Er.
+    - (* empty help: three parts *)
+      change (T_hash ++ SP :: KW_HELP ++ SP :: mname_tok n) with ([HASH] ++ SP :: KW_HELP ++ SP :: mname_tok n).
+      cbn [app]. change (HASH =? HASH) with true. cbv iota.
+      change (HASH :: SP :: KW_HELP ++ SP :: mname_tok n) with (T_hash ++ SP :: KW_HELP ++ SP :: mname_tok n).
+      rewrite (split_comment3 KW_HELP (mname_tok n) skipws_HELP Hskip Htne). cbn [bind].
+      rewrite (cand_of_tok n Hne). cbn [bind].
+      change (str_eqb KW_HELP TextParser.S_HELP) with true. cbv iota.
+      rewrite Hneq. cbn [negb]. rewrite Hfl. cbn [bind]. reflexivity.
+    - change (T_hash ++ SP :: KW_HELP ++ SP :: mname_tok n ++ SP :: t0 :: tr)
+        with ([HASH] ++ SP :: KW_HELP ++ SP :: mname_tok n ++ SP :: t0 :: tr).
+      cbn [app]. change (HASH =? HASH) with true. cbv iota.
+      change (HASH :: SP :: KW_HELP ++ SP :: mname_tok n ++ SP :: t0 :: tr)
+        with (T_hash ++ SP :: KW_HELP ++ SP :: mname_tok n ++ SP :: t0 :: tr).
+      rewrite (split_comment4 KW_HELP (mname_tok n) (t0 :: tr) skipws_HELP Hskip ltac:(discriminate)). cbn [bind].
+      rewrite (cand_of_tok n Hne). cbn [bind].
+      change (str_eqb KW_HELP TextParser.S_HELP) with true. cbv iota.
+      rewrite Hneq. cbn [negb]. rewrite Hfl. cbn [bind]. reflexivity.
+  Qed.
+
+  (* a type word: no whitespace of any kind, non-empty *)
+  Definition word_ok (w : str) : Prop := w <> [] /\ Forall (fun c => is_space_uni c = false) w.
+
+  Lemma rstrip_word w : word_ok w -> rstrip w = w.
+  Proof.
+    intros [Hne Hall]. destruct (@exists_last _ w Hne) as (p & d & ->). apply rstrip_p_ends.
+    apply Forall_app in Hall as [_ Hd]. inversion Hd. assumption.
+  Qed.
+
+  Lemma step_type_line st n typ :
+    n <> [] -> str_eqb n (st_name NUM st) = true -> word_ok typ ->
+    step st (type_line n typ)
+    = Ok ({| st_name := st_name NUM st; st_doc := st_doc NUM st; st_typ := typ; st_samples := st_samples NUM st;
+             st_allowed := allowed_for typ (st_name NUM st) |}, []).
+  Proof.
+    intros Hne Heq Hw. unfold step_line, type_line.
+    destruct (mname_tok_facts n Hne) as (Hskip & Hu & (p & d & Ep & Hd1 & Hd2) & Htne).
+    rewrite strip_comment_line by (exists p, d; auto). rewrite (rstrip_word typ Hw).
+    destruct Hw as [Hwne _]. destruct typ as [|t0 tr]; [congruence|].
+    change (T_hash ++ SP :: KW_TYPE ++ SP :: mname_tok n ++ SP :: t0 :: tr)
+      with ([HASH] ++ SP :: KW_TYPE ++ SP :: mname_tok n ++ SP :: t0 :: tr).
+    cbn [app]. change (HASH =? HASH) with true. cbv iota.
+    change (HASH :: SP :: KW_TYPE ++ SP :: mname_tok n ++ SP :: t0 :: tr)
+      with (T_hash ++ SP :: KW_TYPE ++ SP :: mname_tok n ++ SP :: t0 :: tr).
+    rewrite (split_comment4 KW_TYPE (mname_tok n) (t0 :: tr) skipws_TYPE Hskip ltac:(discriminate)). cbn [bind].
+    rewrite (cand_of_tok n Hne). cbn [bind].
+    change (str_eqb KW_TYPE TextParser.S_HELP) with false. cbv iota.
+    change (str_eqb KW_TYPE TextParser.S_TYPE) with true. cbv iota.
+    rewrite Heq. cbn [negb bind]. reflexivity.
+  Qed.
+End Lines.
+
+(* ---------- a sample line inside a family ---------- *)
+From V Require Import model.LineGrammar proofs.GrammarProofs.
+From Coq Require Import Permutation.
+
+Lemma token_last t : token_ok t -> exists p d, t = p ++ [d] /\ is_space_uni d = false.
+Proof.
+  intros [Hne Hall]. destruct (@exists_last _ t Hne) as (p & d & ->). exists p, d. split; [reflexivity|].
+  apply Forall_app in Hall as [_ Hd]. inversion Hd as [|? ? [H _] _]. exact H.
+Qed.
+
+Lemma body_ends s : token_ok (go_string (s_value s)) ->
+  (match s_ts_ms s with None => True | Some ms => token_ok (dec_of_Z ms) end) ->
+  exists p d, go_string (s_value s) ++ ts_text s = p ++ [d] /\ is_space_uni d = false.
+Proof.
+  intros Hv Ht. unfold ts_text. destruct (s_ts_ms s) as [ms|].
+  - destruct (token_last _ Ht) as (p & d & E & Hd). exists (go_string (s_value s) ++ SP :: p), d.
+    split; [rewrite E; rewrite <- app_assoc; reflexivity|exact Hd].
+  - rewrite app_nil_r. apply token_last. exact Hv.
+Qed.
+
+
+Lemma nlf_token t : token_ok t -> nlf t = 0%nat.
+Proof.
+  intros [_ Hall]. apply cnt_zero_iff. intro Hin. rewrite Forall_forall in Hall. destruct (Hall LF Hin) as [H _].
+  vm_compute in H. discriminate.
+Qed.
+
+Lemma nlf_ltext kvs : nlf (ltext kvs) = 0%nat.
+Proof.
+  rewrite ltext_join. apply nlf_join; [reflexivity|]. intros x Hx. apply in_map_iff in Hx as (kv & <- & _).
+  apply nlf_label_pair.
+Qed.
+
+Lemma sample_body_facts s body :
+  token_ok (go_string (s_value s)) ->
+  (match s_ts_ms s with None => True | Some ms => token_ok (dec_of_Z ms) end) ->
+  text_sample_line s = body ++ [LF] ->
+  strip body = body /\ (exists c r, body = c :: r /\ c <> HASH) /\ ~ In LF body.
+Proof.
+  intros Hv Ht Hb.
+  destruct (text_sample_line_shape s) as (body' & Hb' & Hshape).
+  assert (body' = body) by (rewrite Hb in Hb'; apply app_inv_tail in Hb'; congruence). subst body'.
+  destruct (body_ends s Hv Ht) as (p & d & Ep & Hd).
+  assert (Hts : nlf (ts_text s) = 0%nat).
+  { unfold ts_text. destruct (s_ts_ms s) as [ms|]; [|reflexivity]. rewrite nlf_sp. apply nlf_token. exact Ht. }
+  destruct Hshape as [[Hn ->]|[Hn ->]].
+  - destruct (legacy_name_chars (s_name s) Hn) as (c & r & En & Hall).
+    assert (Hc : name_rest c = true) by (inversion Hall; assumption).
+    destruct (name_rest_plain c Hc) as (_ & _ & _ & _ & _ & _ & Hsp).
+    split; [|split].
+    + assert (Hlast : exists B, s_name s ++ match s_labels s with [] => [] | _ => LBRACE :: ltext (sort_kv (s_labels s)) ++ [RBRACE] end
+                               ++ SP :: go_string (s_value s) ++ ts_text s = B ++ [d]).
+      { exists (s_name s ++ match s_labels s with [] => [] | _ => LBRACE :: ltext (sort_kv (s_labels s)) ++ [RBRACE] end ++ SP :: p).
+        rewrite Ep. repeat (cbn [app]; rewrite <- ?app_assoc). reflexivity. }
+      destruct Hlast as [B HB]. rewrite HB. rewrite En in HB.
+      apply strip_ends.
+      * destruct B; discriminate.
+      * intros c0 r0 E0. rewrite <- HB in E0. cbn [app] in E0. inversion E0; subst. exact Hsp.
+      * intros p0 d0 E0. apply app_inj_tail in E0 as [_ <-]. exact Hd.
+    + rewrite En. eexists _, _. split; [reflexivity|]. intro E; subst c. vm_compute in Hc. discriminate.
+    + apply cnt_zero_iff. rewrite !cnt_app, (legacy_name_no_lf _ Hn), nlf_sp, cnt_app, (nlf_token _ Hv), Hts.
+      destruct (s_labels s); [reflexivity|]. rewrite nlf_braces, nlf_ltext. reflexivity.
+  - split; [|split].
+    + assert (Hlast : exists B, LBRACE :: quote (escape (s_name s)) ++ rest_text (sort_kv (s_labels s))
+                               ++ RBRACE :: SP :: go_string (s_value s) ++ ts_text s = LBRACE :: B ++ [d]).
+      { exists (quote (escape (s_name s)) ++ rest_text (sort_kv (s_labels s)) ++ RBRACE :: SP :: p).
+        rewrite Ep. repeat (cbn [app]; rewrite <- ?app_assoc). reflexivity. }
+      destruct Hlast as [B HB]. rewrite HB. apply strip_delimited; [reflexivity|exact Hd].
+    + eexists _, _. split; [reflexivity|discriminate].
+    + apply cnt_zero_iff. cbn [cnt]. change (LBRACE =? LF) with false. cbv iota.
+      rewrite !cnt_app, nlf_quote. fold (escape (s_name s)).
+      assert (He : nlf (escape (s_name s)) = 0%nat) by (apply cnt_zero_iff, escape_no_lf).
+      rewrite He. cbn [cnt]. change (RBRACE =? LF) with false. change (SP =? LF) with false. cbv iota.
+      rewrite cnt_app, (nlf_token _ Hv), Hts.
+      destruct (sort_kv (s_labels s)) as [|k0 kr]; [reflexivity|]. cbn [rest_text cnt]. change (COMMA =? LF) with false.
+      cbv iota. rewrite nlf_ltext. reflexivity.
+Qed.
+
+(* ---------- blocks: HELP, TYPE, samples ---------- *)
+Definition body_of (s : sample) : str := removelast (text_sample_line s).
+
+Lemma body_of_spec s : text_sample_line s = body_of s ++ [LF].
+Proof.
+  destruct (text_sample_line_shape s) as (b & Hb & _). unfold body_of. rewrite Hb. rewrite removelast_last. reflexivity.
+Qed.
+
+Section Blocks.
+  Variable NUM : Type.
+  Variable parse_num parse_float : str -> option NUM.
+  Variable div1000 : NUM -> res NUM.
+  Variable val_of : sample -> NUM.
+  Variable ts_of : sample -> option NUM.
+  Notation step := (step_line false true NUM parse_num parse_float div1000 true).
+  Notation p_lines := (run_lines false true NUM parse_num parse_float div1000 true).
+  Notation flush_ := (flush false NUM).
+
+  (* everything the round trip needs of one sample; the last three clauses are about CPython only *)
+  Definition sample_ok (s : sample) : Prop :=
+    Forall key_ok (map fst (s_labels s)) /\ NoDup (map fst (s_labels s)) /\
+    token_ok (go_string (s_value s)) /\ parse_num (go_string (s_value s)) = Some (val_of s) /\
+    ts_spec NUM parse_num div1000 s (ts_of s).
+
+  Definition ps_of (s : sample) : psample NUM :=
+    {| ps_name := s_name s; ps_labels := sort_kv (s_labels s); ps_value := val_of s; ps_ts := ts_of s |}.
+
+  Lemma ts_spec_token s tsv : ts_spec NUM parse_num div1000 s tsv ->
+    match s_ts_ms s with None => True | Some ms => token_ok (dec_of_Z ms) end.
+  Proof. unfold ts_spec. destruct (s_ts_ms s); [intros [H _]; exact H|auto]. Qed.
+
+  Lemma step_sample st s : sample_ok s -> mem_str (s_name s) (st_allowed NUM st) = true ->
+    step st (body_of s)
+    = Ok ({| st_name := st_name NUM st; st_doc := st_doc NUM st; st_typ := st_typ NUM st;
+             st_samples := ps_of s :: st_samples NUM st; st_allowed := st_allowed NUM st |}, []).
+  Proof.
+    intros (Hk & Hnd & Hv & Hpv & Hts) Hal.
+    destruct (sample_body_facts s (body_of s) Hv (ts_spec_token s _ Hts) (body_of_spec s)) as (Hstrip & (c & r & Eb & Hc) & _).
+    destruct (text_sample_roundtrip NUM parse_num parse_float div1000 s (val_of s) (ts_of s) Hk Hnd Hv Hpv Hts)
+      as (body & Hb & Hp).
+    assert (body = body_of s) by (rewrite body_of_spec in Hb; apply app_inv_tail in Hb; congruence). subst body.
+    unfold step_line. rewrite Hstrip. rewrite Eb at 1. destruct (N.eqb_spec c HASH); [contradiction|].
+    rewrite Hp. cbn [bind ps_name]. rewrite Hal. reflexivity.
+  Qed.
+
+  Lemma run_samples ss : forall st more acc,
+    Forall sample_ok ss -> Forall (fun s => mem_str (s_name s) (st_allowed NUM st) = true) ss ->
+    p_lines st (map body_of ss ++ more) acc
+    = p_lines {| st_name := st_name NUM st; st_doc := st_doc NUM st; st_typ := st_typ NUM st;
+                 st_samples := rev (map ps_of ss) ++ st_samples NUM st; st_allowed := st_allowed NUM st |} more acc.
+  Proof.
+    induction ss as [|s ss IH]; intros st more acc Hok Hal.
+    - cbn [map app rev]. destruct st; reflexivity.
+    - inversion Hok as [|? ? Hs Hss]; subst. inversion Hal as [|? ? Ha Has]; subst.
+      cbn [map app run_lines]. rewrite (step_sample st s Hs Ha). cbn [bind]. rewrite app_nil_r.
+      rewrite IH; [|exact Hss|exact Has]. cbn [st_name st_doc st_typ st_samples st_allowed rev map].
+      rewrite <- app_assoc. reflexivity.
+  Qed.
+
+  (* a block: the metadata of one (possibly munged) family name and its sample lines *)
+  Record block := { b_name : str; b_doc : str; b_typ : str; b_samples : list sample }.
+  Definition block_lines (b : block) : list str :=
+    help_line (b_name b) (b_doc b) :: type_line (b_name b) (b_typ b) :: map body_of (b_samples b).
+  Definition render_block (b : block) : str :=
+    text_meta (b_name b) (b_doc b) (b_typ b) ++ flat_map text_sample_line (b_samples b).
+
+  Lemma render_block_unlines b : render_block b = unlines (block_lines b).
+  Proof.
+    unfold render_block, block_lines, unlines. cbn [flat_map]. rewrite text_meta_lines_eq.
+    assert (Hs : flat_map text_sample_line (b_samples b)
+                 = flat_map (fun l : list char => l ++ [LF]) (map body_of (b_samples b))).
+    { induction (b_samples b) as [|s ss IH]; [reflexivity|]. cbn [map flat_map]. rewrite body_of_spec at 1. rewrite IH. reflexivity. }
+    rewrite Hs. repeat (cbn [app]; rewrite <- ?app_assoc). reflexivity.
+  Qed.
+
+  Definition block_ok (b : block) : Prop :=
+    b_name b <> [] /\ word_ok (b_typ b) /\ Forall sample_ok (b_samples b) /\
+    Forall (fun s => mem_str (s_name s) (allowed_for (b_typ b) (b_name b)) = true) (b_samples b).
+
+  Definition st_of (b : block) : pstate NUM :=
+    {| st_name := b_name b; st_doc := parsed_doc (b_doc b); st_typ := b_typ b;
+       st_samples := rev (map ps_of (b_samples b)); st_allowed := allowed_for (b_typ b) (b_name b) |}.
+
+  Lemma run_block st b more acc out :
+    block_ok b -> str_eqb (b_name b) (st_name NUM st) = false -> flush_ st = Ok out ->
+    p_lines st (block_lines b ++ more) acc = p_lines (st_of b) more (acc ++ out).
+  Proof.
+    intros (Hne & Hw & Hs & Ha) Hneq Hfl. unfold block_lines. cbn [app run_lines].
+    rewrite (step_help_line NUM parse_num parse_float div1000 st (b_name b) (b_doc b) out Hne Hneq Hfl). cbn [bind].
+    rewrite step_type_line; [|exact Hne|apply str_eqb_refl|exact Hw]. cbn [bind st_name st_doc st_samples].
+    rewrite app_nil_r. rewrite run_samples; [|exact Hs|exact Ha].
+    cbn [st_name st_doc st_typ st_samples st_allowed]. rewrite app_nil_r. reflexivity.
+  Qed.
+End Blocks.
+
+(* ---------- documents: a sequence of blocks ---------- *)
+Section Documents.
+  Variable NUM : Type.
+  Variable parse_num parse_float : str -> option NUM.
+  Variable div1000 : NUM -> res NUM.
+  Variable val_of : sample -> NUM.
+  Variable ts_of : sample -> option NUM.
+  Notation p_text := (text_parse false true NUM parse_num parse_float div1000 true).
+  Notation p_lines := (run_lines false true NUM parse_num parse_float div1000 true).
+  Notation flush_ := (flush false NUM).
+  Notation block_ok := (block_ok NUM parse_num div1000 val_of ts_of).
+  Notation st_of := (st_of NUM val_of ts_of).
+  Notation ps_of := (ps_of NUM val_of ts_of).
+
+  (* the family the parser builds from a block: Metric(name, help, type) with the counter munging of build_metric *)
+  Definition fam_res (b : block) : res (pfamily NUM) :=
+    build_metric false NUM (b_name b) (parsed_doc (b_doc b)) (b_typ b) (map ps_of (b_samples b)).
+
+  (* consecutive blocks carry different names (a registry never exposes one name twice: C06) *)
+  Fixpoint chain (prev : str) (bs : list block) : Prop :=
+    match bs with [] => True | b :: r => str_eqb (b_name b) prev = false /\ chain (b_name b) r end.
+
+  Lemma flush_st_of b : b_name b <> [] -> flush_ (st_of b) = (do m <- fam_res b; Ok [m]).
+  Proof.
+    intro Hne. unfold flush, st_of, fam_res. cbn [st_name st_doc st_typ st_samples].
+    destruct (b_name b) eqn:E; [congruence|]. rewrite rev_involutive. reflexivity.
+  Qed.
+
+  Lemma run_blocks bs : forall st acc out fams,
+    Forall block_ok bs -> chain (st_name NUM st) bs -> flush_ st = Ok out ->
+    Forall2 (fun b f => fam_res b = Ok f) bs fams ->
+    p_lines st (flat_map (block_lines) bs) acc = Ok (acc ++ out ++ fams).
+  Proof.
+    induction bs as [|b bs IH]; intros st acc out fams Hok Hch Hfl Hf.
+    - inversion Hf; subst. cbn [flat_map run_lines]. rewrite Hfl. cbn [bind]. rewrite app_nil_r. reflexivity.
+    - inversion Hok as [|? ? Hb Hbs]; subst. inversion Hf as [|? f ? fs Hfb Hfs]; subst.
+      destruct Hch as [Hneq Hch]. cbn [flat_map].
+      rewrite (run_block NUM parse_num parse_float div1000 val_of ts_of st b _ acc out Hb Hneq Hfl).
+      assert (Hne : b_name b <> []) by (destruct Hb; assumption).
+      rewrite (IH (st_of b) (acc ++ out) [f] fs Hbs Hch); [rewrite <- !app_assoc; reflexivity| |exact Hfs].
+      rewrite (flush_st_of b Hne), Hfb. reflexivity.
+  Qed.
+
+  Lemma nlf_help_line n doc : nlf (help_line n doc) = 0%nat.
+  Proof.
+    unfold help_line, mname_tok. unfold T_hash. cbn [app cnt]. change (HASH =? LF) with false. change (SP =? LF) with false.
+    cbv iota. rewrite !cnt_app. change (nlf KW_HELP) with 0%nat. cbn [cnt]. change (SP =? LF) with false. cbv iota.
+    rewrite cnt_app, nlf_escape_metric_name. cbn [cnt]. change (SP =? LF) with false. cbv iota.
+    rewrite nlf_help_escape. reflexivity.
+  Qed.
+
+  Lemma nlf_word w : word_ok w -> nlf w = 0%nat.
+  Proof.
+    intros [_ Hall]. apply cnt_zero_iff. intro Hin. rewrite Forall_forall in Hall. specialize (Hall LF Hin).
+    vm_compute in Hall. discriminate.
+  Qed.
+
+  Lemma nlf_type_line n typ : word_ok typ -> nlf (type_line n typ) = 0%nat.
+  Proof.
+    intro Hw. unfold type_line, mname_tok. unfold T_hash. cbn [app cnt]. change (HASH =? LF) with false. change (SP =? LF) with false.
+    cbv iota. rewrite !cnt_app. change (nlf KW_TYPE) with 0%nat. cbn [cnt]. change (SP =? LF) with false. cbv iota.
+    rewrite cnt_app, nlf_escape_metric_name. cbn [cnt]. change (SP =? LF) with false. cbv iota.
+    rewrite (nlf_word typ Hw). reflexivity.
+  Qed.
+
+  Lemma block_lines_no_lf b : block_ok b -> Forall (fun l => ~ In LF l) (block_lines b).
+  Proof.
+    intros (Hne & Hw & Hs & _). unfold block_lines.
+    constructor; [apply cnt_zero_iff, nlf_help_line|].
+    constructor; [apply cnt_zero_iff, nlf_type_line; exact Hw|].
+    rewrite Forall_map. eapply Forall_impl; [|exact Hs]. intros s (Hk & Hnd & Hv & Hpv & Hts).
+    destruct (sample_body_facts s (body_of s) Hv (ts_spec_token NUM parse_num div1000 s _ Hts) (body_of_spec s))
+      as (_ & _ & H). exact H.
+  Qed.
+
+  (* L5: a document of blocks parses to one family per block, in order *)
+  Theorem text_blocks_roundtrip bs fams :
+    Forall block_ok bs -> chain [] bs ->
+    Forall2 (fun b f => fam_res b = Ok f) bs fams ->
+    p_text (flat_map render_block bs) = Ok fams.
+  Proof.
+    intros Hok Hch Hf.
+    assert (Hdoc : flat_map render_block bs = unlines (flat_map block_lines bs)).
+    { clear Hok Hch Hf. induction bs as [|b r IH]; [reflexivity|]. cbn [flat_map]. rewrite IH, render_block_unlines.
+      unfold unlines. rewrite flat_map_app. reflexivity. }
+    rewrite Hdoc, text_parse_unlines.
+    - rewrite (run_blocks bs (st_init NUM) [] [] fams Hok Hch eq_refl Hf). reflexivity.
+    - clear Hch Hf Hdoc. induction Hok as [|b r Hb _ IH]; [constructor|]. cbn [flat_map]. apply Forall_app. split; [|exact IH].
+      apply block_lines_no_lf. exact Hb.
+  Qed.
+End Documents.
+
+(* ---------- families as blocks: the exposition of a family is its main block followed by its trailing gauge blocks ---------- *)
+Definition fam_bucket (f : family) (k : nat) : list sample :=
+  filter (fun s => match om_suffix_of (f_name f) s with Some j => Nat.eqb j k | None => false end) (f_samples f).
+Definition fam_main (f : family) : list sample :=
+  filter (fun s => match om_suffix_of (f_name f) s with None => true | Some _ => false end) (f_samples f).
+Definition trailing_block (f : family) (k : nat) (suffix : str) : list block :=
+  match fam_bucket f k with
+  | [] => []
+  | ss => [{| b_name := f_name f ++ suffix; b_doc := f_doc f; b_typ := Expo.S_gauge; b_samples := ss |}]
+  end.
+Definition blocks_of (f : family) : list block :=
+  {| b_name := fst (text_munge (f_name f) (f_type f)); b_doc := f_doc f;
+     b_typ := snd (text_munge (f_name f) (f_type f)); b_samples := fam_main f |}
+  :: trailing_block f 0 S_created ++ trailing_block f 1 S_gcount ++ trailing_block f 2 S_gsum.
+
+Lemma text_family_blocks f : text_family f = flat_map render_block (blocks_of f).
+Proof.
+  unfold text_family, blocks_of, trailing_block, fam_bucket, fam_main.
+  destruct (text_munge (f_name f) (f_type f)) as [mname mtype]. cbn [fst snd flat_map].
+  unfold render_block at 1. cbn [b_name b_doc b_typ b_samples]. rewrite <- !app_assoc. do 2 f_equal.
+  rewrite !flat_map_app.
+  repeat match goal with
+  | |- context [match filter ?p ?l with [] => _ | _ => _ end] => destruct (filter p l)
+  end; cbn [flat_map]; unfold render_block; cbn [b_name b_doc b_typ b_samples];
+    repeat (cbn [app flat_map]; rewrite ?app_nil_r, <- ?app_assoc); reflexivity.
+Qed.
+
+Theorem text_render_blocks fams : text_render fams = flat_map render_block (flat_map blocks_of fams).
+Proof.
+  unfold text_render. induction fams as [|f r IH]; [reflexivity|]. cbn [flat_map].
+  rewrite flat_map_app, <- IH, text_family_blocks. reflexivity.
+Qed.
+
+(* ---------- what build_metric makes of a block: the documented name/type mapping ---------- *)
+Section Munge.
+  Variable NUM : Type.
+  Variable val_of : sample -> NUM.
+  Variable ts_of : sample -> option NUM.
+  Notation fam_res := (fam_res NUM val_of ts_of).
+  Notation ps_of := (ps_of NUM val_of ts_of).
+
+  Lemma ends_with_app_total n : ends_with TextParser.S_total (n ++ TextParser.S_total) = true.
+  Proof.
+    unfold ends_with. rewrite rev_app_distr.
+    generalize (rev n). intro r. vm_compute (rev TextParser.S_total). cbn [app starts_with].
+    rewrite !N.eqb_refl. reflexivity.
+  Qed.
+
+  (* counter: the family gets its name back without _total, samples keep theirs *)
+  Lemma fam_res_counter n doc ss : n <> [] ->
+    fam_res {| b_name := n ++ TextParser.S_total; b_doc := doc; b_typ := TextParser.S_counter; b_samples := ss |}
+    = Ok {| pf_name := n; pf_doc := parsed_doc doc; pf_type := TextParser.S_counter; pf_samples := map ps_of ss |}.
+  Proof.
+    intro Hne.
+    assert (Hfn : firstn (length (n ++ TextParser.S_total) - 6) (n ++ TextParser.S_total) = n).
+    { rewrite app_length. change (length TextParser.S_total) with 6%nat.
+      replace (length n + 6 - 6)%nat with (length n) by lia. rewrite firstn_app, firstn_all, Nat.sub_diag.
+      cbn [firstn]. rewrite app_nil_r. reflexivity. }
+    unfold DocRoundTrip.fam_res, build_metric. cbn [b_name b_doc b_typ b_samples].
+    change (str_eqb TextParser.S_counter TextParser.S_counter) with true. cbv iota.
+    rewrite ends_with_app_total. unfold char in *. rewrite !Hfn.
+    unfold validate_metric_name_utf8. destruct n; [congruence|]. cbn [bind].
+    change (str_eqb TextParser.S_counter TextParser.S_untyped) with false. cbv iota.
+    change (mem_str TextParser.S_counter METRIC_TYPES) with true. reflexivity.
+  Qed.
+
+  (* gauge, summary, histogram: name and type kept; untyped is reported as unknown *)
+  Lemma fam_res_plain n doc typ ss : n <> [] ->
+    str_eqb typ TextParser.S_counter = false -> str_eqb typ TextParser.S_untyped = false -> mem_str typ METRIC_TYPES = true ->
+    fam_res {| b_name := n; b_doc := doc; b_typ := typ; b_samples := ss |}
+    = Ok {| pf_name := n; pf_doc := parsed_doc doc; pf_type := typ; pf_samples := map ps_of ss |}.
+  Proof.
+    intros Hne Hc Hu Hm. unfold DocRoundTrip.fam_res, build_metric. cbn [b_name b_doc b_typ b_samples].
+    rewrite Hc. unfold validate_metric_name_utf8. destruct n; [congruence|]. cbn [bind]. rewrite Hu, Hm. reflexivity.
+  Qed.
+
+  Lemma fam_res_untyped n doc ss : n <> [] ->
+    fam_res {| b_name := n; b_doc := doc; b_typ := TextParser.S_untyped; b_samples := ss |}
+    = Ok {| pf_name := n; pf_doc := parsed_doc doc; pf_type := TextParser.S_unknown; pf_samples := map ps_of ss |}.
+  Proof.
+    intro Hne. unfold DocRoundTrip.fam_res, build_metric. cbn [b_name b_doc b_typ b_samples].
+    change (str_eqb TextParser.S_untyped TextParser.S_counter) with false. cbv iota.
+    unfold validate_metric_name_utf8. destruct n; [congruence|]. cbn [bind].
+    change (str_eqb TextParser.S_untyped TextParser.S_untyped) with true. cbv iota.
+    change (mem_str TextParser.S_unknown METRIC_TYPES) with true. reflexivity.
+  Qed.
+End Munge.
